@@ -309,17 +309,17 @@ def build_cases(ctx, rng, workdir, scale):
     pool = []
     for s in rng.sample(srcs, min(200, len(srcs))):
         pool += [t for t in c05.tokenize(s) if not t.isspace()]
-    for i in range(int(3000 * scale)):
+    for i in range(int(2000 * scale)):
         s = rng.choice(srcs)
         for _ in range(rng.choice([1, 1, 1, 2, 3])):
             s, op = c05.mutate_tokens(rng, s, pool)
         cases.append(MCase("m%d" % i, "mutate", s.replace(b"\x00", b" "), c05.SAMPLE_PATH if rng.random() < 0.7 else None))
-    for i in range(int(1200 * scale)):
+    for i in range(int(800 * scale)):
         s = rng.choice(srcs)
         if len(s) > 2:
             cases.append(MCase("t%d" % i, "truncate", s[:rng.randrange(1, len(s))], c05.SAMPLE_PATH))
     g = c05.ProgGen(rng)
-    for i in range(int(2500 * scale)):
+    for i in range(int(1800 * scale)):
         p = g.program().encode()
         if rng.random() < 0.2:
             cases.append(MCase("g%d" % i, "generated-valid", p))
@@ -455,7 +455,7 @@ def run(ctx):
 def _run(ctx, drv, mon, workdir, t0):
     rng = random.Random(ctx.seed * 1000003 + 16)
     thorough = ctx.tier == "thorough"
-    scale = 12.0 if thorough else 1.0
+    scale = 16.0 if thorough else 1.0
     if ctx.broken:
         scale *= 2
     timeout = 20 if thorough else 6
@@ -526,7 +526,11 @@ def _run(ctx, drv, mon, workdir, t0):
         lst = findings[key]
         c, o, k, desc = min(lst, key=lambda t: len(t[0].data))
         data, tested = c.data, 0
-        if key not in known and shrink_budget > 0 and len(c.data) > 12 and not c.cls.startswith("use"):
+        kept = [x for x in lst if x[0].cls == "kept-corpus"]
+        if kept:                      # an already minimised input from corpus/C16 reproduces it
+            c, o, k, desc = min(kept, key=lambda t: len(t[0].data))
+            data = c.data
+        elif key not in known and shrink_budget > 0 and len(c.data) > 12 and not c.cls.startswith("use"):
             shrink_budget -= 1
 
             def test(cands, c=c, key=key, k=k):
@@ -552,7 +556,7 @@ def _run(ctx, drv, mon, workdir, t0):
     t_ls0 = time.time()
     lcases = [c for c in cases if not c.cls.startswith("nest-parser")]
     if not thorough:
-        lcases = [c for i, c in enumerate(lcases) if c.cls.startswith(("runtime", "kept", "use", "corpus")) or i % 3 == 0]
+        lcases = [c for i, c in enumerate(lcases) if c.cls.startswith(("runtime", "kept", "use", "corpus")) or i % 4 == 0]
     ls = lsan_second_opinion(ctx, lcases, workdir, timeout)
     ls_counts = {"run": len(ls), "clean": 0, "leak": 0, "asan-error": 0, "other-abnormal": 0}
     lfind = {}
